@@ -98,6 +98,19 @@ class DynamicSGEDecider(SynthesisDecider):
             )
 
 
+class DynamicSGESource(RandomSource):
+    """The random source seen by metahandlers during a dynamic SGE mapping: its values are read from the genotype."""
+
+    def __init__(self, decider: DynamicSGEDecider):
+        self.decider = decider
+
+    def randint(self, min: int, max: int) -> int:
+        return self.decider.random_int(min, max)
+
+    def random_float(self, min: float, max: float) -> float:
+        return (self.decider.read(float) % 1024) / 1024 * (max - min) + min
+
+
 class DynamicStructuredGrammaticalEvolutionRepresentation(
     Representation[Genotype, TreeNode],
     RepresentationWithMutation[Genotype],
@@ -125,7 +138,7 @@ class DynamicStructuredGrammaticalEvolutionRepresentation(
 
     def genotype_to_phenotype(self, genotype: Genotype) -> TreeNode:
         decider = DynamicSGEDecider(genotype, self.grammar, self.max_depth)
-        return random_tree(genotype.random, self.grammar, decider)
+        return random_tree(DynamicSGESource(decider), self.grammar, decider)
 
     def mutate(self, random: RandomSource, genotype: Genotype, **kwargs) -> Genotype:
         dna = {k: list(v) for k, v in genotype.dna.items()}
